@@ -16,6 +16,7 @@ import (
 type Encoder struct {
 	guardsOn bool     // lock-discipline obligations are generated (property C11 is being checked)
 	unshared []string // object references the contract declares thread-private
+	unshDecl bool
 	topEntry *State   // entry state of the function under contract (inlined frames have their own f.entry)
 	prog     *Program
 	ct       *Contracts
@@ -583,13 +584,14 @@ func (e *Encoder) oblige(kind, label, pc, goal, desc string, pos token.Pos, prop
 	if label == "" || e.oblCount[key] > 1 {
 		name = fmt.Sprintf("%s#%s.%d", e.name, key, e.oblCount[key])
 	}
+	explicit := props != nil
 	if props == nil {
 		props = e.fc.Props
 		if e.caseC != nil && len(e.caseC.Props) > 0 {
 			props = e.caseC.Props
 		}
 	}
-	o := &Obligation{Name: name, Func: e.name, Kind: kind, Props: props, Prefix: len(e.lines), PC: pc, Goal: goal, Desc: desc, enc: e, Block: e.curBlk}
+	o := &Obligation{Name: name, Func: e.name, Kind: kind, Props: props, Explicit: explicit, Prefix: len(e.lines), PC: pc, Goal: goal, Desc: desc, enc: e, Block: e.curBlk}
 	if e.curBlk != nil {
 		o.Cases = e.blockCases[e.curBlk]
 	}
